@@ -124,8 +124,19 @@ func jsCanon(ans string) string {
 	if !ok {
 		return "OK! " + ans[3:]
 	}
+	// the first header line of a generated file names the source file — an arbitrary string (soyjs 086971f
+	// replaces its line terminators): compared byte for byte, as one token
+	if strings.HasPrefix(string(src), jsHeaderPrefix) {
+		line := string(src)
+		if i := strings.IndexByte(line, '\n'); i >= 0 {
+			line = line[:i]
+		}
+		toks = append([]string{line}, toks...)
+	}
 	return "OK " + hxs(strings.Join(toks, "\n"))
 }
+
+const jsHeaderPrefix = "// This file was automatically generated from "
 
 // jsStringValue evaluates a JavaScript string literal token (quotes included) by the rules of
 // ECMA-262 (StringLiteral: SingleEscapeCharacter, \xHH, \uHHHH, \0, line continuation,
